@@ -12,7 +12,7 @@
    is the statement that the counter has not wrapped below that bound). *)
 From Coq Require Import List NArith Arith Lia.
 From GmsmVerif Require Import Lib.Outcome SM3.SM3Spec SM3.HMACSpec SM3.HashSpec SM3.SM3Model
-  SM3.SM3Proofs SM3.SM3History SM3.HMACProofs SM3.SM3Heap SM3.SM3HeapProofs SM3.SM3Arith SM3.SM3ArithProofs SM3.SM3ModelConsts SM3.SM3ConstsProofs Gen.SM3IV Gen.SM3Consts.
+  SM3.SM3Proofs SM3.SM3History SM3.HMACProofs SM3.SM3Heap SM3.SM3HeapProofs SM3.SM3Arith SM3.SM3ArithProofs SM3.SM3ModelConsts SM3.SM3ConstsProofs SM3.SM3Fast SM3.SM3FastProofs Gen.SM3IV Gen.SM3Consts.
 Import ListNotations.
 Open Scope N_scope.
 
@@ -256,6 +256,18 @@ Theorem C04_update2_same_text_as_update : gen_update2_same_as_update = true.
 Proof. reflexivity. Qed.
 Print Assumptions C04_update2_same_text_as_update.
 
+(* (h) The fast variant for the extracted runners (SM3/SM3Fast.v: words as records of 32 booleans,
+   window-based expansion, list-walking rounds, table of T_j <<< j) computes the same function as the
+   specification, for every list (it falls back to sm3 on lists that are not bytes); likewise
+   HMAC-SM3 over it *)
+Theorem C04_sm3_fast_is_sm3 : forall m, sm3_fast m = sm3 m.
+Proof. exact sm3_fast_eq. Qed.
+Print Assumptions C04_sm3_fast_is_sm3.
+
+Theorem C04_hmac_sm3_fast_is_hmac_sm3 : forall key msg, hmac_sm3_fast key msg = hmac_sm3 key msg.
+Proof. exact hmac_sm3_fast_eq. Qed.
+Print Assumptions C04_hmac_sm3_fast_is_hmac_sm3.
+
 (* ---------- non-vacuity: concrete instances, evaluated ---------------------------------------------- *)
 (* a state with dirty scratch arrays and one block left: the hypotheses of (a) are met *)
 Example C04_compress_example :
@@ -326,3 +338,10 @@ Example C04_arith_example :
   [0x66;0xc7;0xf0;0xf4; 0x62;0xee;0xed;0xd9; 0xd1;0xf2;0xd4;0x6b; 0xdc;0x10;0xe4;0xe2;
    0x41;0x67;0xc4;0x87; 0x5c;0xf2;0xf7;0xa2; 0x29;0x7d;0xa0;0x2b; 0x8f;0x4b;0xa8;0xe0].
 Proof. split; [repeat constructor|vm_compute; reflexivity]. Qed.
+
+(* the fast variant evaluated on A.1 *)
+Example C04_sm3_fast_example :
+  sm3_fast [0x61; 0x62; 0x63] =
+  [0x66;0xc7;0xf0;0xf4; 0x62;0xee;0xed;0xd9; 0xd1;0xf2;0xd4;0x6b; 0xdc;0x10;0xe4;0xe2;
+   0x41;0x67;0xc4;0x87; 0x5c;0xf2;0xf7;0xa2; 0x29;0x7d;0xa0;0x2b; 0x8f;0x4b;0xa8;0xe0].
+Proof. vm_compute. reflexivity. Qed.
